@@ -23,7 +23,7 @@ Not decided: byte-identity with an independent RFC encoder for whole messages, M
 corrupted byte (follows from the stream clause only under MD5's properties).
 """
 import itertools
-from rules import driver, core, absint, r_mpt, r_stride, r_path
+from rules import driver, core, absint, r_mpt, r_stride, r_path, r_endian
 from rules.core import key, walk, strip_casts, const_val
 from props import common, fixtures
 
@@ -31,6 +31,10 @@ RADIUS_H = "include/proto/radius.h"
 DNS_H = "include/proto/dns.h"
 TRUSTED = ["clang 14 front end + CFG builder", "tool/lcbfacts.cc", "rules/r_stride.py partial evaluator", "python3",
            "RFC 2865 5.2/3, RFC 2866 3, RFC 3579 3.2, RFC 5176 2.3 as transcribed in props/c15.py"]
+
+# RFC 1035 4.1 / RFC 6891 6.1.2 / RFC 2865 3: the multi-byte integer fields of the wire formats the library declares
+WIRE_REQUIRED = {"proto/dns.h": ["qd_count", "an_count", "ns_count", "ar_count", "type", "class", "ttl", "rdlength", "udp_payload_size"],
+                 "proto/radius.h": ["len"]}
 
 
 def specs():
@@ -796,17 +800,39 @@ def run(rep, tier):
     counter_rule(rep, ud)
     rep.floor("DNS header accessors", accessor_siblings(rep, ud), 16)
     ct_compare_rule(rep, ur)
+    nwf = nacc = 0
+    for lab, u in us.items():
+        fns_ = [f for f in u.function_list if f.file.startswith(core.REPO + "/")]
+        wf = r_endian.wire_fields(u, fns_)
+        if lab in WIRE_REQUIRED:
+            missing = [w for w in WIRE_REQUIRED[lab] if not any(w == f for (_r, f) in wf)]
+            desc = "the RFC's multi-byte fields of %s are converted with ntoh*/hton* where they are read and written" % lab
+            if missing:
+                rep.violated("R-ENDIAN", "", "wire-fields:" + lab, desc, "no conversion at all for: %s" % ", ".join(missing), file="include/" + lab, unit=lab)
+            else:
+                rep.proved("R-ENDIAN", "", "wire-fields:" + lab, desc, "%d fields" % len(wf), file="include/" + lab, unit=lab)
+        a, b = r_endian.check(rep, u, fns_, wf)
+        nwf += a
+        nacc += b
+    rep.floor("wire fields (network byte order)", nwf, 20)
+    rep.floor("wire field accesses classified", nacc, 100)
     return driver.finish(
         rep, "other",
         "DNS and RADIUS builders, structural clauses: pointer/length agreement at call sites; every builder arm can succeed; the "
         "byte streams hashed for the Request/Response Authenticator and the Message-Authenticator equal the RFC streams for all packet "
         "codes and modes (partial evaluation with symbolic byte contents); RFC 2865 password hiding equations for 1..3 blocks incl. "
-        "in-place use; DNS writer/reader field layout and size agreement; counter bump; accessor siblings; constant-time compare. "
+        "in-place use; DNS writer/reader field layout and size agreement; counter bump; accessor siblings; constant-time compare; "
+        "byte-order typestate of every wire field access (R-ENDIAN: no arithmetic on, and no host-order store into, a network-order field). "
         "NOT decided: byte identity of whole messages with an independent encoder, digest values, name round trip.",
         ["MD5/HMAC-MD5 contexts behave as init/update*/final (C07)", "the RFC streams transcribed in _ref_stream"], TRUSTED)
 
 
 def selftest():
+    u = fixtures.load("endian.c")
+    rep = driver.Report("fixture", "quick")
+    r_endian.check(rep, u, [f for f in u.function_list if f.name.startswith("fx_")])
+    fixtures.expect(rep, ["fx_inc_bad", "fx_store_bad", "fx_lt_bad", "fx_local_bad", "fx_double_bad"],
+                    ["fx_inc_ok", "fx_cmp_ok", "fx_copy_ok", "fx_flip_ok", "fx_count_get", "fx_count_set", "fx_ttl_get"], "R-ENDIAN")
     u = fixtures.load("plen.c")
     rep = driver.Report("fixture", "quick")
     plen_rule(rep, u, [f for f in u.function_list if f.name.startswith("fx_")])
